@@ -14,6 +14,7 @@
 //   setcb <via> <id>               SetBasicCallback (c, p) / SetBasicFortranCallback (fc) / …F (f)
 //   version                        GetVersionString / IPhreeqc::GetVersionString / GetVersionStringF
 //   loaddb <via> <id> | loadbad <via> <id> | defsel <via> <id> <n> <hex|->      (PH_DB = database path)
+//   runsel <via> <id> <hex> <n>...  RunString of a real input that defines SELECTED_OUTPUT n... (no -file option)
 //   pad <hex> <len>                padfstring(dest[len], src, &len)    -> "P buf:len"
 #include "friend.hpp"
 #include "hx.hpp"
@@ -117,6 +118,10 @@ int main(){
       out<<"I "<<r<<"\n"; }
     else if(op=="defsel"){ int id=arg(2), n=arg(3); std::string in="SELECTED_OUTPUT "+std::to_string(n)+"\n -reset false\n";
       if(w[4]!="-") in += " -file "+hx::unhex(w[4])+"\n"; IPhreeqc* q=TestIPhreeqc::instance(id); int r;
+      if(w[1]=="c") r=RunString(id,in.c_str()); else if(w[1]=="f") r=RunStringF(&id,(char*)in.c_str()); else r = q ? q->RunString(in.c_str()) : -6;
+      out<<"I "<<r<<"\n"; }
+    else if(op=="runsel"){ // runsel via id hex n... : a real input that defines the listed SELECTED_OUTPUT numbers (none with -file)
+      int id=arg(2); std::string in=hx::unhex(w[3]); IPhreeqc* q=TestIPhreeqc::instance(id); int r;
       if(w[1]=="c") r=RunString(id,in.c_str()); else if(w[1]=="f") r=RunStringF(&id,(char*)in.c_str()); else r = q ? q->RunString(in.c_str()) : -6;
       out<<"I "<<r<<"\n"; }
     else if(op=="pad"){ std::string s=hx::unhex(w[1]); int n=arg(2), len=n; std::vector<char> buf(n+8,'#'); padfstring(buf.data(), s.c_str(), &len);
